@@ -1,5 +1,6 @@
 import Driver.Util
 import NixModel.Pure.PropVals
+import NixModel.Pure.PropHandles
 open Lean Nix.PropVals
 
 /-!
@@ -14,10 +15,15 @@ Line protocol of the C10 model driver (one JSON array per line, state threaded t
   ["get", pkey]                          the whole property record
   ["mksec", name, type]                  section.create_section
   ["getitem", key] ["setitem", name, input|{"S": type}] ["delitem", pkey] ["contains", key]
-  ["len"] ["items"] ["reopen"]
+  ["len"] ["items"] ["iter"] ["reopen"]
+  ["hold", h, pkey]                      h = section.props[pkey]       (a kept Property object; h is a number)
+  ["createh", h, name, input]            h = section.create_property(name, input)
+  ["hset"|"hextend", h, input] ["hclear", h] ["hsetattr", h, attr, attrval] ["hsetodml", h, odml|null]
+  ["hget", h] ["drop", h]                calls through the kept object
 
 strings are arrays of code points; ints / float bit patterns are decimal strings.
-Answer: {"ok": result, "state": dump} or {"err": class, "state": dump}.
+Answer: {"ok": result, "state": dump} or {"err": class, "state": dump}; the dump lists, under "handles", the
+record every kept object must report.
 -/
 namespace Driver.C10
 
@@ -177,6 +183,14 @@ def stateJ (st : State) : Json :=
   Json.mkObj [("props", Json.arr (st.props.map propJ).toArray),
               ("secs", Json.arr (st.secs.map secJ).toArray)]
 
+def hstateJ (hs : HState) : Json :=
+  Json.mkObj [("props", Json.arr (hs.st.props.map propJ).toArray),
+              ("secs", Json.arr (hs.st.secs.map secJ).toArray),
+              ("handles", Json.mkObj (hs.handles.map fun e =>
+                (toString e.1, match hs.st.props.find? (·.id == e.2) with
+                               | some p => propJ p
+                               | none => Json.null)))]
+
 def resJ : Res → Json
   | .unit => Json.null
   | .prop p => propJ p
@@ -211,21 +225,40 @@ def op? (j : Json) : Option Op :=
   | [.str "len"] => some .len
   | [.str "items"] => some .items
   | [.str "reopen"] => some .reopen
+  | [.str "iter"] => some .iter
   | _ => none
 
-def handle (st : State) (j : Json) : State × Json :=
-  match (jArr j).toList with
-  | [.str "reset"] => (State.init, Json.mkObj [("ok", Json.null), ("state", stateJ State.init)])
-  | _ =>
-    match op? j with
-    | none => (st, bad "C10: malformed operation")
-    | some op =>
-      if !op.WF then (st, bad "C10: ill-formed array input") else
-      let (st', out) := step st op
-      match out with
-      | .ok r => (st', Json.mkObj [("ok", resJ r), ("state", stateJ st')])
-      | .error e => (st', Json.mkObj [("err", Json.str e.toString), ("state", stateJ st')])
+def hnat? (j : Json) : Option Nat := (jInt? j).bind fun i => if i < 0 then none else some i.toNat
 
-def main : IO Unit := loop State.init handle
+def hop? (j : Json) : Option HOp :=
+  match (jArr j).toList with
+  | [.str "hold", h, k] => do some (.hold (← hnat? h) (← pkey? k))
+  | [.str "createh", h, n, i] => do some (.createHold (← hnat? h) (← str? n) (← input? i))
+  | [.str "hset", h, i] => do some (.hset (← hnat? h) (← input? i))
+  | [.str "hextend", h, i] => do some (.hextend (← hnat? h) (← input? i))
+  | [.str "hclear", h] => do some (.hclear (← hnat? h))
+  | [.str "hsetattr", h, .str a, v] => do some (.hsetAttr (← hnat? h) (← attrName? a) (← attrVal? v))
+  | [.str "hsetodml", h, o] =>
+    match o with
+    | .str s => do some (.hsetOdml (← hnat? h) (some (← odml? s)))
+    | _ => do some (.hsetOdml (← hnat? h) none)
+  | [.str "hget", h] => do some (.hget (← hnat? h))
+  | [.str "drop", h] => do some (.drop (← hnat? h))
+  | _ => (op? j).map .plain
+
+def handle (hs : HState) (j : Json) : HState × Json :=
+  match (jArr j).toList with
+  | [.str "reset"] => (HState.init, Json.mkObj [("ok", Json.null), ("state", hstateJ HState.init)])
+  | _ =>
+    match hop? j with
+    | none => (hs, bad "C10: malformed operation")
+    | some op =>
+      if !op.WF then (hs, bad "C10: ill-formed array input") else
+      let (hs', out) := hstep hs op
+      match out with
+      | .ok r => (hs', Json.mkObj [("ok", resJ r), ("state", hstateJ hs')])
+      | .error e => (hs', Json.mkObj [("err", Json.str e.toString), ("state", hstateJ hs')])
+
+def main : IO Unit := loop HState.init handle
 
 end Driver.C10
